@@ -781,6 +781,11 @@ pub mod verif {
         pub fn board_fen(&self) -> String { Fen::from(&self.search.state.bitboard).fen }
         pub fn nodes_of_last_search(&self) -> u64 { self.search.state.metrics.last.negamax_nodes }
         pub fn contempt_factor(&self) -> i32 { self.search.options.contempt_factor }
+        /// Replace the transposition table by an empty one of the given capacity (0 = nothing is ever kept:
+        /// the table is a cache, so the search must then still return the same minimax values)
+        pub fn set_table_capacity(&mut self, capacity: usize) {
+            self.search.state.transposition_table = crate::engine::table::transposition::HashMapTranspositionTable::new(capacity);
+        }
     }
 
     impl<T: UciTx, H: crate::engine::heuristic::Heuristic, M: crate::engine::move_order::MoveOrder> Search<T, H, M> {
